@@ -577,6 +577,7 @@ fn c05_oracle(ctx: &Ctx) -> Vec<Violation> {
             ));
         }
     }
+    out.extend(crate::c09_12::helper_instantiation(ctx));
     out
 }
 
@@ -686,6 +687,16 @@ fn c04_post(mut items: Vec<Item>) -> Vec<Item> {
         let seed = it.layout as usize;
         match &mut it.kind {
             Kind::Struct { shape: Shape::Named(fs), .. } => {
+                // types the Python back end wraps in Annotated[.., BeforeValidator, PlainSerializer] (datetime, and bytes
+                // when "Vec<u8>" is mapped): optionality has to survive that wrapping
+                if seed % 16 == 0 && !fs.iter().any(|f| f.name == "stamped_at" || f.name == "raw_bytes") {
+                    let mut a = Field::new("stamped_at", Ty::DateTime);
+                    a.default = [Dflt::Bare, Dflt::None, Dflt::Bare, Dflt::Path][(seed / 16) % 4];
+                    let mut b = Field::new("raw_bytes", if (seed / 16) % 3 == 0 { Ty::Opt(Box::new(Ty::DateTime)) } else { Ty::DateTime });
+                    b.default = [Dflt::None, Dflt::Bare, Dflt::Bare][(seed / 16) % 3];
+                    fs.push(a);
+                    fs.push(b);
+                }
                 for f in fs.iter_mut() {
                     k += 1;
                     if (k + seed) % 2 == 0 {
